@@ -73,7 +73,7 @@ def body():
         key, s, evs = execs[i]
         c.violation(key, "execution is not a behaviour of the TLS contract (authentication / agreement): first unexplained event #%d %s" % (j, json.dumps(ev)[:200]),
                     {"scenario": s, "event_index": j, "events": evs[max(0, j - 12):j + 3]})
-    # the TLCP and TLS 1.2 servers against a peer that is not the library: protocol deviations only a hostile client can produce
+    # the TLCP, TLS 1.2 and TLS 1.3 servers against a peer that is not the library: protocol deviations only a hostile client can produce
     import roguepeer, concurrent.futures as cf
     exe = vlib.cc_driver("srvdrv", ["srvdrv.c", "vh.c"])
     creds = tlslib.ensure_creds()
@@ -85,11 +85,11 @@ def body():
     MALFORMED = {"ccs_early", "no_ccs", "ccs_twice", "finished_plain", "finished_wrong", "no_finished"}
     MALFORMED = {"ccs_early", "no_ccs", "ccs_twice", "finished_plain", "finished_wrong", "no_finished"}
     jobs = []
-    for proto, sp in ((257, "tlcp"), (771, "srv")):
-        jobs += [(proto, sp + "_d2", "trust_root", d, "cli_d2") for d in DEV]
+    for proto, sp in ((257, "tlcp"), (771, "srv"), (772, "srv")):
+        jobs += [(proto, sp + "_d2", "trust_root", d, "cli_d2") for d in DEV if not (proto == 772 and "ccs" in d)]          # TLS 1.3 has no ChangeCipherSpec
         jobs += [(proto, sp + "_d2", "trust_evil", "honest", "cli_d2"), (proto, sp + "_d2", "trust_root", "honest", "cli_untrusted"), (proto, sp + "_d2", "-", "honest", "cli_d2"),
                  (proto, sp + "_d3", "trust_root", "empty_cert", "cli_d2"), (proto, sp + "_d1", "trust_root", "cert_no_cv", "cli_d3")]
-        jobs += [(proto, sp + "_d2", "-", d, "cli_d2") for d in sorted(MALFORMED)]            # the same sequence deviations without client authentication
+        jobs += [(proto, sp + "_d2", "-", d, "cli_d2") for d in sorted(MALFORMED) if not (proto == 772 and "ccs" in d)]            # the same sequence deviations without client authentication
     def one(j):
         proto, scred, strust, dev, ccred = j
         return j, roguepeer.run(creds, exe, proto, scred, strust, dev, ccred=ccred)
